@@ -189,7 +189,7 @@ fn cmd_replay(args: &[String]) -> i32 {
             let (ea, eb) = (run::exec(&input), run::exec(&b));
             let ab = format!("{input}{b}");
             let eab = run::exec(&ab);
-            println!("A closed: {}", oracle::compose::is_closed(&input, &ea));
+            println!("A closed: {}", oracle::compose::is_closed(&input, &ea, false));
             if let (Some(ra), Some(rb), Some(rab)) = (ea.result(), eb.result(), eab.result()) {
                 for f in oracle::compose::check_c15(&input, ra, rb, rab) {
                     println!("FINDING {} :: {}", f.sig, f.msg);
